@@ -108,7 +108,11 @@ func ruleIterCombine(cx *Ctx) {
 		name := declName(ref)
 		where := cx.P.Pos(ref.decl.Pos())
 		var viol []string
-		runs, bad := itExplore(cx.P, decls, 2, func(it *itInterp) {
+		lenMax := 2
+		if cx.Tier == "thorough" {
+			lenMax = 3
+		}
+		runs, bad := itExplore(cx.P, decls, lenMax, func(it *itInterp) {
 			var args []any
 			total := 0
 			for i := 0; i < sig.Params().Len(); i++ {
@@ -129,7 +133,7 @@ func ruleIterCombine(cx *Ctx) {
 				}
 				switch {
 				case isIterSeqType(t):
-					s := it.newSource(p.Name(), it.choose(3, "len"))
+					s := it.newSource(p.Name(), it.choose(lenMax+1, "len"))
 					total += len(s.elems)
 					args = append(args, s)
 				case isFuncType(t):
@@ -276,7 +280,11 @@ func ruleIterWalk(cx *Ctx) {
 		where := cx.P.Pos(ref.decl.Pos())
 		var viol []string
 		runs, bad := itExplore(cx.P, decls, 2, func(it *itInterp) {
-			m := it.choose(4, "members")
+			maxMembers := 3
+			if cx.Tier == "thorough" {
+				maxMembers = 5
+			}
+			m := it.choose(maxMembers+1, "members")
 			isExp := it.choose(2, "isExp") == 1
 			d := &itObj{name: "list", fields: map[string]any{}}
 			for i := 0; i < st.NumFields(); i++ {
@@ -453,6 +461,18 @@ func ruleIterCache(cx *Ctx) {
 			r2, b2 := explore(2)
 			runs += r2
 			bad = b2
+			if bad == "" && cx.Tier == "thorough" {
+				r3, b3 := explore(3)
+				runs += r3
+				bad = b3
+			}
+		} else if bad == "" && cx.Tier == "thorough" {
+			// several sources: two elements each in the thorough tier
+			r2, b2 := explore(2)
+			runs += r2
+			if b2 == "" || !strings.Contains(b2, "more than") {
+				bad = b2
+			}
 		}
 		// every complete run walks the whole cache: the table, or every list any run of this iterator walks
 		for _, w := range complete {
